@@ -267,6 +267,12 @@ def _one_config(cfg, ex, em, C, rep, sqrt4pi):
             # (d) interpolant at the grid points
             interp = grid.interpolate(f)
             C.cmp("d:interpolant-at-grid-points" + tag, cfg, interp(grid.points), f, S)
+            # the same array object refreshed in place with another band-limited function (-f/2 + g00-part):
+            # a second interpolation on the same grid must answer for the values it is given now
+            fbuf = 2.0 * np.array(f, dtype=float)
+            C.cmp("d:interpolant-of-rescaled-values" + tag, cfg, grid.interpolate(fbuf)(grid.points), 2.0 * f, 2 * S)
+            fbuf *= -0.25
+            C.cmp("d:interpolant-after-in-place-refresh" + tag, cfg, grid.interpolate(fbuf)(grid.points), -0.5 * f, S)
             # (e) arbitrary points incl. the centre and the z axis
             npts = 14
             rr = rng.uniform(rpts[0] if rpts[0] > 0 else 0.05, rpts[-1], npts)
